@@ -1124,6 +1124,7 @@ def routes_for(k):
             + tuple(CHAIN_ROUTES[(3 * k + j * 11) % m] for j in (0, 1, 2)))
 
 
+ALREADY_SHRUNK: set = set()
 NOT_OBSERVABLE: dict = {}     # route: reason -> count (reported in the evidence distribution)
 
 
@@ -1272,8 +1273,13 @@ def check_value(ctx: Ctx, v, routes=ROUTES):
                     return False
                 rr = route_fails(route, c)
                 return rr is not None and rr[0].split(" -> ")[-1].split(": ")[-1] == sig.split(" -> ")[-1].split(": ")[-1]
-            small = shrink_value(v, fails)
-            rr = route_fails(route, small) or r
+            if sig in ALREADY_SHRUNK:        # one shrunk witness per signature is enough; keep the run short
+                small, rr = v, r
+            else:
+                ALREADY_SHRUNK.add(sig)
+                small = shrink_value(v, fails)
+                rr = route_fails(route, small) or r
+                ALREADY_SHRUNK.add(rr[0])
             sig, what = rr[0], rr[1]
             ctx.fail(Failure(signature=sig, what=what, case={"kind": "value", "value": small, "route": route},
                              observed=rr[2], expected="norm(value): the literal itself (numeral strings as numbers)"))
@@ -1410,6 +1416,7 @@ def run(ctx: Ctx):
     for k, n in sorted(NOT_OBSERVABLE.items()):
         ctx.count("oracle:not-observable:" + k, n)
     NOT_OBSERVABLE.clear()
+    ALREADY_SHRUNK.clear()
 
     if ctx.model_ok:
         ctx.correspond("encode_cel vs Encode.encode (byte for byte) + repr(float) laws", "Corr_C11",
